@@ -155,3 +155,59 @@ prop('C18',
      'pointer inside the string) with ASan watching every read.',
      level_note='Sampled input space; ASan red zones see only adjacent over-reads (strings are exactly sized so the '
      'first byte past the NUL is a red zone).')
+
+# ----------------------------------------------------------------------- C09
+LIST = [R + 'list.c']
+prop('C09',
+     'exh: every operation string of length 5 (quick) / 6 (thorough) over a 25-operation alphabet (2 lists, 4 nodes; '
+     'insert, push, sorted insert with 2 keys, extract, remove of each node, iterate, contains+iterator, iterator '
+     'next/insert/remove) from starting shapes of 0..3 nodes, strings with an inapplicable operation pruned; rand: '
+     'random strings of 10-200 operations over 3 lists and 8 nodes with iterator sessions. Non-trivial = string that '
+     'removes the last or only element of a list and later inserts at its tail or head; distinct by construction '
+     '(exh) or by hash of the operation string (rand).',
+     [Stage('exh', ['harness/list.c'], LIST, preset='asan', nproc=16,
+            args={'quick': ['--extra', 'exh'], 'thorough': ['--extra', 'exh']},
+            needs_min={'exhaustive_strings_executed': 100000}, timeout={'quick': 600, 'thorough': 7200}),
+      Stage('rand', ['harness/list.c'], LIST, preset='asan', nproc=16,
+            args={'quick': ['--extra', 'rand'], 'thorough': ['--extra', 'rand']},
+            needs_min={'random_strings_nontrivial': 1000, 'strings_with_sorted_insert_among_equal_keys': 1000}),
+      Stage('rand-clang-O2', ['harness/list.c'], LIST, preset='asan-O2', cc='clang', nproc=16, tiers=('thorough',),
+            args={'thorough': ['--extra', 'rand', '--cases', '4000000']})],
+     assumptions=['scope of the statement: a node is never inserted while it is a member of a list; '
+                  'list_iterator_remove is only called with a current element (the library asserts otherwise)',
+                  'an iterator is dropped by the harness when its list is modified other than through it'],
+     exhaustive_note='exh stage: all strings of the stated length over the reduced alphabet',
+     engine='E1', technique='runtime monitoring: lock-step abstract-sequence model over enumerated and random '
+     'operation strings, full observation after every operation, ASan+UBSan',
+     level_text='Exploration. Every operation string up to a bounded length over a reduced alphabet, and random long '
+     'strings over 3 lists/8 nodes, run on the real list.c in lock-step with an array model; after every operation '
+     'the traversal (raw and through the iterator API), every return value, list_contains for every (list,node), the '
+     'iterator position and the next pointers of non-members are compared.',
+     level_note='Bounded depth for the exhaustive part; iterator validity follows the weakest reading (no guarantee '
+     'after the list is modified behind the iterator).')
+
+# ----------------------------------------------------------------------- C12
+PACK = [R + 'pack.c'] + UTIL
+prop('C12',
+     'hist: random strings of 1-24 implemented pack/unpack operations (pack only, unpack only or mixed) over every '
+     'buffer size 0..40, item sizes steered to end exactly at, one past, and far beyond the end, NULL and real '
+     'sources/destinations in exactly-sized heap blocks; vals: all 65536 values through each 16-bit packer/unpacker at '
+     '3 offsets, all byte values through the single-byte readers, all single-byte and walking-one 32-bit patterns plus '
+     'random ones with read-back. Non-trivial = string whose first non-fitting item starts strictly inside the buffer '
+     'and is followed by a smaller item that would have fitted there; distinct by hash of (size, operation string).',
+     [Stage('hist', ['harness/pack.c'], PACK, preset='asan', nproc=16,
+            args={'quick': ['--extra', 'hist'], 'thorough': ['--extra', 'hist']},
+            needs_min={'strings_nontrivial': 1000, 'strings_with_exact_fit_at_end': 1000}),
+      Stage('vals', ['harness/pack.c'], PACK, preset='asan', nproc=16,
+            args={'quick': ['--extra', 'vals'], 'thorough': ['--extra', 'vals']},
+            needs_min={'values16_packed': 3 * 65536, 'values16_unpacked': 65536}),
+      Stage('hist-clang-O2', ['harness/pack.c'], PACK, preset='asan-O2', cc='clang', nproc=16, tiers=('thorough',),
+            args={'thorough': ['--extra', 'hist', '--cases', '4000000']})],
+     assumptions=['only the operations that have a definition are exercised (pack: bytes,s16le,u16be,u16le,s32le,'
+                  'u32le; unpack: bytes,char,s8,u8,u16le,u32le); total requested bytes stay below 2^31'],
+     engine='E1', technique='runtime monitoring: lock-step byte-image model with sticky-overflow cursor, guard by '
+     'exactly-sized heap blocks under ASan+UBSan',
+     level_text='Exploration. Generated operation strings run on the real pack.c against a byte-image model whose '
+     'expected bytes come from the operation names; buffer image, returned values, zero-fill, consumed and remaining '
+     'are compared after every call and ASan sees any access outside the exactly-sized buffers.',
+     level_note='Sampled histories; 16-bit value spaces exhaustive; 32-bit values sampled with all single-byte patterns.')
